@@ -135,67 +135,4 @@ fn find_start_marker_custom() {
     }
 }
 
-fn ws(b: u8) -> bool {
-    // char::is_ascii_whitespace: space, tab, line feed, form feed, carriage return
-    b == b' ' || b == b'\t' || b == b'\n' || b == 0x0C || b == b'\r'
-}
-
-/// `-? ws* name ws* -? block_end` over bytes; (offset after block_end, whether the second `-` was there)
-fn skip_tag_oracle(s: &[u8], name: &[u8], end: &[u8]) -> Option<(usize, bool)> {
-    let mut i = 0;
-    if i < s.len() && s[i] == b'-' {
-        i += 1;
-    }
-    while i < s.len() && ws(s[i]) {
-        i += 1;
-    }
-    let mut k = 0;
-    while k < name.len() {
-        if i >= s.len() || s[i] != name[k] {
-            return None;
-        }
-        i += 1;
-        k += 1;
-    }
-    while i < s.len() && ws(s[i]) {
-        i += 1;
-    }
-    let mut outer = false;
-    if i < s.len() && s[i] == b'-' {
-        i += 1;
-        outer = true;
-    }
-    let mut k = 0;
-    while k < end.len() {
-        if i >= s.len() || s[i] != end[k] {
-            return None;
-        }
-        i += 1;
-        k += 1;
-    }
-    Some((i, outer))
-}
-
-// killed by: skip_tag returning `Some((block_str.len() - ptr.len(), false))` (outer `-` forgotten) ;
-//            also by the second whitespace loop deleted
-#[kani::proof]
-#[kani::unwind(10)]
-fn skip_tag_raw() {
-    let raw: [u8; 8] = kani::any();
-    let len: usize = kani::any();
-    kani::assume(len <= 8);
-    // ASCII only (a multi-byte character can only make the tag not match)
-    let mut i = 0;
-    while i < 8 {
-        kani::assume(raw[i] < 0x80);
-        i += 1;
-    }
-    if let Ok(text) = core::str::from_utf8(&raw[..len]) {
-        let got = skip_tag(text, "raw", "%}");
-        let want = skip_tag_oracle(&raw[..len], b"raw", b"%}");
-        assert!(got == want);
-        if let Some((off, _)) = got {
-            assert!(off <= len);
-        }
-    }
-}
+// NOT KEPT: skip_tag (<= 8 ASCII bytes, name "raw", end "%}") did not finish in 200 s (str::strip_prefix with char closures).
